@@ -24,11 +24,15 @@ func init() {
 			"(5) Terminator.Drain returns nil only when no pod is waiting for eviction in any group; " +
 			"(6) lifecycle.finalize removes the NodeClaim finalizer only when (not Registered or no Nodes left) and (no provider id or provider Delete reports NotFound), with every other error edge failing closed; " +
 			"(7) the emptiness convention of (2)/(3) from the steps' side: every return of a step whose error may be nil either carries a Result that cannot be empty (Requeue = true, or a RequeueAfter that is provably > 0: a positive constant, max with a positive operand, min / lo.Clamp whose bounds are all positive, also through a temporary or a private helper) or is itself guarded by the step's condition of (4) — a 'not yet' answer whose requeue is computed and may be zero is a 'proceed'; " +
-			"(8) the cordon: Terminator.Taint returns nil only when (the node already carried a taint for which Taint.MatchTaint(&taint) holds — same key and effect — or the requested taint was appended to node.Spec.Taints) and (the node equals the copy taken before the taint was added, or the patch succeeded).",
-		NotCovered: []string{"truthfulness of the provider's NotFound answers", "volume-attachment filtering semantics (which pods are drainable)", "behaviour between two API calls under crash (only the guards re-evaluated on the next reconcile are decided)",
+			"(8) the cordon: Terminator.Taint returns nil only when (the node already carried a taint for which Taint.MatchTaint(&taint) holds — same key and effect — or the requested taint was appended to node.Spec.Taints) and (the node equals the copy taken before the taint was added, or the patch succeeded); " +
+			"(9) the volume wait's input: pendingVolumeAttachments returns a nil error only when both GetVolumeAttachments and filterVolumeAttachments returned a nil error, and the list it returns with it is the filtered listing (a failed List is never read as 'no attachments'); " +
+			"(10) what filterVolumeAttachments may drop from the blocking list: with a nil error it returns its input or lo.Reject / lo.Filter over its input whose predicate drops an attachment only when it has no PersistentVolume name or its volume is in a string set; every string set of the function (private helpers included) starts empty and only receives GetPersistentVolumeClaim(pod, volume).Spec.VolumeName of pods selected from GetPods(node) by lo.Reject / lo.Filter such that a pod is kept only when pod.IsDrainable is false for it; " +
+			"(11) 'if it was ever launched' (6) is read off Status.ProviderID, so the launch has to be on record: every return of lifecycle.Reconcile that is reachable after a sub-reconciler ran and whose error may be nil is guarded by (the NodeClaim equals the copy taken before the sub-reconcilers ran) or (the status patch relative to that copy returned nil) — a `return …, client.IgnoreNotFound(err)` on an error edge excepted; the copy is taken before the sub-reconcilers run; the object whose status is patched still carries their writes (the NodeClaim itself with no metadata Patch/Update of it in between, or a DeepCopy taken after the sub-reconcilers and before that write).",
+		NotCovered: []string{"truthfulness of the provider's NotFound answers", "semantics of pod.IsDrainable, GetVolumeAttachments, GetPods and GetPersistentVolumeClaim themselves (which pods are drainable, which attachments belong to the node); an exclusion set built in another way than Insert of PVC volume names in a loop over lo.Reject / lo.Filter(GetPods(node), IsDrainable) — a hand-written pod loop, a set seeded at construction, Union/Delete — is reported (idiom has to be re-confirmed)", "behaviour between two API calls under crash (only the guards re-evaluated on the next reconcile are decided)",
 			"a requeue interval read from a package variable or produced by arithmetic other than max/min/Clamp over constants is reported as 'not provably non-zero' and has to be re-confirmed by hand (fails closed)",
+			"a crash or a failed status patch between the provider's Create and the status patch of lifecycle.Reconcile leaves an instance without a provider id on record (left to the garbage-collection controller; C09.MPT4 only decides that a Reconcile which reports success has persisted it); sub-reconcilers that persist their own status, or a persisting tail nested deeper than one private helper, are reported (shape has to be re-confirmed)",
 			"semantics of k8s.io/api Taint.MatchTaint itself; an existing-taint test written as a hand loop or spelled key==key && effect==effect instead of lo.Find / lo.ContainsBy with MatchTaint is reported (idiom has to be re-confirmed)"},
-		Rules:      c09Rules,
+		Rules: c09Rules,
 	})
 }
 
@@ -65,6 +69,9 @@ func c09RulesBase(tier string) []Rule {
 		G(`+^\$2 == nil$`, `+^cloudprovider\.IgnoreNodeClaimNotFoundError\(`+cpDel+`\) == nil$`),
 	)
 	const taint = "(*tor.Terminator).Taint"
+	const pva = "(*term.Controller).pendingVolumeAttachments"
+	getVA := `utils/node\.GetVolumeAttachments\(\$0\.kubeClient, \$2\)`
+	filterVA := `term\.filterVolumeAttachments\(\$0\.kubeClient, \$2, ` + getVA + `#0, \$0\.clock\)`
 	taintStore := `^store \$2\.Spec\.Taints = append\(.*, &local<\[1\]corev1\.Taint>\[:\]\)$`
 	return []Rule{
 		// ---- who removes finalizers
@@ -157,6 +164,22 @@ func c09RulesBase(tier string) []Rule {
 				"pending attachments = GetVolumeAttachments(node) filtered by drainable pods")
 		}},
 
+		// ---- the volume wait: awaitVolumeDetachment reads "pendingVolumeAttachments returned an empty list and a nil error" as
+		// "no blocking attachment is left" (DOM4). That reading is only right when a failed List is not turned into an empty
+		// list: a nil error of pendingVolumeAttachments means that both the listing and the filtering succeeded …
+		MPT{ID: "C09.MPT3", Fn: pva, Ret: core.RetOK, Gates: gates(
+			G(`+^`+getVA+`#1 == nil$`),
+			G(`+^`+filterVA+`#1 == nil$`),
+		)},
+		// … and the list handed back with it is the filtered listing itself (anything else only on the two error edges)
+		core.Custom{ID: "C09.RET2", Kind: "RET", Run: func(w *core.World, id string) []core.Result {
+			return core.RetLeavesGuarded(w, id, "RET", pva, 0, `^`+filterVA+`#0$`, G(`-^`+getVA+`#1 == nil$`, `-^`+filterVA+`#1 == nil$`), 1,
+				"with a nil error pendingVolumeAttachments returns filterVolumeAttachments(GetVolumeAttachments(node))")
+		}},
+		// what the filter may drop: only attachments without a PersistentVolume name or whose volume belongs to a PVC of a
+		// pod on the node that is NOT drainable (such a pod stays, its volume never detaches); everything else blocks
+		core.Custom{ID: "C09.PROV4", Kind: "PROV", Run: c09VolumeFilter},
+
 		// ---- Terminator.Drain
 		MPT{ID: "C09.MPT1", Fn: drain, Ret: core.RetNilConst, Gates: gates(
 			G(`+^utils/node\.GetPods\(\$0\.kubeClient, .*\)#1 == nil$`),
@@ -201,6 +224,9 @@ func c09RulesBase(tier string) []Rule {
 		)},
 		// lifecycle.finalize is entered only for deleting NodeClaims, from the controller
 		WMC{ID: "C09.WMC5", Sink: `^(call|go|defer) \(\*life\.Controller\)\.finalize\(`, Allowed: []string{"(*life.Controller).Reconcile"}, Required: []string{"(*life.Controller).Reconcile"}},
+		// "if it was ever launched" is read off Status.ProviderID (DOM6/DOM7): the launch has to be on record before
+		// lifecycle.Reconcile reports success
+		core.Custom{ID: "C09.MPT4", Kind: "MPT", Run: c09LaunchRecorded},
 		DOM{ID: "C09.DOM8", Fn: "(*life.Controller).Reconcile", Sink: `^call \(\*life\.Controller\)\.finalize\(\$0, \$2\)`, Gates: gates(
 			G(`-^\(\*metav1\.Time\)\.IsZero\(\$2\.ObjectMeta\.DeletionTimestamp\)$`),
 		)},
@@ -835,4 +861,464 @@ func c09AppendedElem(v ssa.Value) (ssa.Value, bool) {
 		}
 	}
 	return el, el != nil
+}
+
+// ---------------------------------------------------------------------------
+// C09.PROV4 — which volume attachments filterVolumeAttachments may drop from the blocking list
+
+// c09VolumeFilter: awaitVolumeDetachment proceeds when the list filterVolumeAttachments returns is empty, so every
+// attachment missing from that list is one the node's termination does not wait for. Decided here:
+//
+//	(a) with a nil error the function returns its input list or lo.Reject / lo.Filter over that input;
+//	(b) the predicate drops an attachment only when it has no PersistentVolume name or its volume is in a string set;
+//	(c) every string set in the function (and its private helpers) starts empty and only ever receives
+//	    GetPersistentVolumeClaim(pod, volume).Spec.VolumeName of a pod taken from lo.Reject / lo.Filter over GetPods(node);
+//	(d) that pod selection keeps a pod only when pod.IsDrainable is false for it.
+func c09VolumeFilter(w *core.World, id string) []core.Result {
+	const fname = "term.filterVolumeAttachments"
+	fn := w.Fn(fname)
+	if fn == nil {
+		return []core.Result{core.Anchor(id, "PROV", fname)}
+	}
+	construct := "PROV:" + fname + ":dropped⊆{no PV name}∪{volumes of non-drainable pods}"
+	var out []core.Result
+	bad := func(pos, msg string) { out = append(out, core.Bad(id, "PROV", construct, pos, msg)) }
+	const (
+		podList = `lo\.(Reject|Filter)\[\*corev1\.Pod, \[\]\*corev1\.Pod\]\(utils/node\.GetPods\([^()]*(\[:\])?\)#0, [^ ]*\)`
+		pvName  = `\$0\.Spec\.Source\.PersistentVolumeName`
+	)
+	dropGate := G(`+^`+pvName+` == nil$`, `+^\(apim/util/sets\.Set\[string\]\)\.Has\(.*, `+pvName+`\)$`)
+	volRe := regexp.MustCompile(`^utils/volume\.GetPersistentVolumeClaim\(.*, ` + podList + `\[.*\], .*\)#0\.Spec\.VolumeName$`)
+
+	// (a) + (b): what is returned with a nil error
+	predicates := 0
+	var check func(owner *ssa.Function, v ssa.Value, pos string, depth int)
+	check = func(owner *ssa.Function, v ssa.Value, pos string, depth int) {
+		switch x := v.(type) {
+		case *ssa.Parameter:
+			if w.Render(x) != "$3" {
+				bad(pos, "filterVolumeAttachments returns `"+w.Render(x)+"` with a nil error: neither its input list nor a filtering of it")
+			}
+			return
+		case *ssa.Phi:
+			if depth < 4 {
+				for _, e := range x.Edges {
+					if e != v {
+						check(owner, e, pos, depth+1)
+					}
+				}
+				return
+			}
+		case *ssa.Call:
+			name := w.CalleeName(x.Common())
+			isReject, isFilter := strings.HasPrefix(name, "lo.Reject["), strings.HasPrefix(name, "lo.Filter[")
+			if isReject || isFilter {
+				args := core.CallArgs(x.Common())
+				if len(args) != 2 || w.Render(args[0]) != "$3" {
+					bad(pos, "the list filtered for the nil-error return of filterVolumeAttachments is not the input list (`"+clipStr(w.RenderD(x, 4), 120)+"`)")
+					return
+				}
+				var pred *ssa.Function
+				switch p := args[1].(type) {
+				case *ssa.MakeClosure:
+					pred, _ = p.Fn.(*ssa.Function)
+				case *ssa.Function:
+					pred = p
+				}
+				if pred == nil {
+					bad(pos, "the predicate of the attachment filter cannot be resolved (idiom not recognised)")
+					return
+				}
+				// lo.Reject drops where the predicate is true, lo.Filter where it is false
+				spec, how := core.RetTrue, "lo.Reject drops an attachment for which its predicate answers true"
+				if isFilter {
+					spec, how = core.RetFalse, "lo.Filter drops an attachment for which its predicate answers false"
+				}
+				sinks := w.ReturnSinks(pred, spec)
+				if len(sinks) == 0 {
+					bad(w.Pos(pred.Pos()), "vacuous: the attachment predicate never answers "+spec.Want+" (idiom not recognised)")
+					return
+				}
+				predicates++
+				for _, s := range sinks {
+					if !w.RetGuarded(s, dropGate) {
+						out = append(out, core.Bad(id, "PROV", construct, w.InstrPos(s.Ret),
+							how+"; here it can do so ("+s.Desc+") although the attachment has a PersistentVolume name that is not in the set of volumes of non-drainable pods {"+dropGate.Text+"}: the attachment of a drainable pod's volume no longer blocks termination, the instance is deleted with the volume attached",
+							w.DominatingLits(s.Ret)...))
+					}
+				}
+				return
+			}
+			if h, ret, leave, ok := w.EnterHelper(owner, x); ok && depth < 4 {
+				check(h, ret, w.Pos(h.Pos()), depth+1)
+				leave()
+				return
+			}
+		}
+		bad(pos, "with a nil error filterVolumeAttachments returns `"+clipStr(w.RenderD(v, 4), 120)+"`, which is neither its input list nor lo.Reject / lo.Filter over it (idiom not recognised): attachments missing from the result are not waited for")
+	}
+	sinks := w.ReturnSinks(fn, core.RetOK)
+	for _, s := range sinks {
+		v := c09SinkResult(s, 0)
+		if v == nil {
+			bad(w.InstrPos(s.Ret), "return of filterVolumeAttachments without a list operand (idiom not recognised)")
+			continue
+		}
+		check(fn, v, w.InstrPos(s.Ret), 0)
+	}
+	if len(sinks) < 1 || predicates < 1 {
+		bad(w.Pos(fn.Pos()), fmt.Sprintf("vacuous: %d nil-error return(s), %d filtering predicate(s) examined (1 confirmed by hand)", len(sinks), predicates))
+	}
+
+	// (c) + (d): what the exclusion set holds
+	news, inserts, selections := 0, 0, 0
+	newRe := regexp.MustCompile(`^call apim/util/sets\.New\[string\]\(`)
+	setCall := regexp.MustCompile(`^call \(apim/util/sets\.Set\[string\]\)\.(\w+)\(`)
+	selRe := regexp.MustCompile(`^call ` + podList + `$`)
+	seenSel := map[ssa.Instruction]bool{}
+	w.WithHelpers(fn, func(f *ssa.Function, _ ssa.Instruction) {
+		for _, s := range w.Sites(f, newRe, true) {
+			news++
+			if got := w.RenderInstr(s); got != "call apim/util/sets.New[string](nil)" {
+				bad(w.InstrPos(s), "a string set in filterVolumeAttachments does not start empty (`"+clipStr(got, 100)+"`): its members are dropped from the blocking attachments")
+			}
+		}
+		for _, s := range w.Sites(f, setCall, true) {
+			switch m := setCall.FindStringSubmatch(w.RenderInstr(s)); m[1] {
+			case "Has", "Len":
+			case "Insert":
+				inserts++
+				ci := s.(ssa.CallInstruction)
+				args := core.CallArgs(ci.Common())
+				els, ok := []ssa.Value(nil), false
+				if len(args) == 2 {
+					els, ok = c09SliceLitElems(args[1])
+				}
+				if !ok {
+					bad(w.InstrPos(s), "the values inserted into the exclusion set are not a literal argument list (idiom not recognised)")
+					continue
+				}
+				for _, el := range els {
+					if got := w.RenderD(el, 14); !volRe.MatchString(got) {
+						bad(w.InstrPos(s), "`"+clipStr(got, 200)+"` is put into the set of volumes whose attachments do not block termination; only the volume of a PersistentVolumeClaim of a pod selected as not drainable from GetPods(node) belongs there")
+					}
+				}
+			default:
+				bad(w.InstrPos(s), "string set operation `"+m[1]+"` in filterVolumeAttachments is not one of Insert / Has / Len (idiom has to be re-confirmed)")
+			}
+		}
+		// (d) the pods whose volumes are excluded: kept ⇒ not drainable
+		for _, s := range w.Sites(f, selRe, true) {
+			if seenSel[s] {
+				continue
+			}
+			seenSel[s] = true
+			selections++
+			ci := s.(ssa.CallInstruction)
+			args := core.CallArgs(ci.Common())
+			var pred *ssa.Function
+			if len(args) == 2 {
+				switch p := args[1].(type) {
+				case *ssa.MakeClosure:
+					pred, _ = p.Fn.(*ssa.Function)
+				case *ssa.Function:
+					pred = p
+				}
+			}
+			if pred == nil {
+				bad(w.InstrPos(s), "the predicate selecting the pods whose volumes do not block cannot be resolved (idiom not recognised)")
+				continue
+			}
+			// lo.Reject keeps where the predicate is false, lo.Filter where it is true
+			spec := core.RetFalse
+			if strings.HasPrefix(w.CalleeName(ci.Common()), "lo.Filter[") {
+				spec = core.RetTrue
+			}
+			ps := w.ReturnSinks(pred, spec)
+			if len(ps) == 0 {
+				bad(w.Pos(pred.Pos()), "vacuous: the pod selection keeps no pod (idiom not recognised)")
+			}
+			g := G(`-^utils/pod\.IsDrainable\(\$0, .*\)$`)
+			for _, p := range ps {
+				if !w.RetGuarded(p, g) {
+					out = append(out, core.Bad(id, "PROV", construct, w.InstrPos(p.Ret),
+						"the pods whose volumes are excluded from the blocking attachments must be the pods that are NOT drainable (they stay on the node, their volumes never detach); this selection keeps a pod ("+p.Desc+") without pod.IsDrainable being false for it — the attachments of drainable pods' volumes then stop blocking termination",
+						w.DominatingLits(p.Ret)...))
+				}
+			}
+		}
+	})
+	if news < 1 || inserts < 1 || selections < 1 {
+		bad(w.Pos(fn.Pos()), fmt.Sprintf("vacuous: %d sets.New[string], %d Insert, %d pod selection(s) over GetPods found in filterVolumeAttachments (1 each confirmed by hand) — the exclusion set is built differently and has to be re-confirmed", news, inserts, selections))
+	}
+	if len(out) == 0 {
+		out = append(out, core.OK(id, "PROV", construct, len(sinks)+predicates+inserts+selections,
+			"returned = input ∖ {no PV name ∨ volume ∈ set}; set ⊆ PVC volumes of pods with ¬IsDrainable"))
+	}
+	return out
+}
+
+// c09SliceLitElems: v is `&local<[n]T>[:]` (the argument list of a variadic call); returns the n values stored into it.
+func c09SliceLitElems(v ssa.Value) ([]ssa.Value, bool) {
+	sl, ok := v.(*ssa.Slice)
+	if !ok {
+		return nil, false
+	}
+	a, ok := sl.X.(*ssa.Alloc)
+	if !ok || a.Referrers() == nil {
+		return nil, false
+	}
+	arr, ok := a.Type().Underlying().(*types.Pointer).Elem().Underlying().(*types.Array)
+	if !ok {
+		return nil, false
+	}
+	var els []ssa.Value
+	for _, r := range *a.Referrers() {
+		ia, ok := r.(*ssa.IndexAddr)
+		if !ok || ia.Referrers() == nil {
+			continue
+		}
+		for _, r2 := range *ia.Referrers() {
+			if st, ok := r2.(*ssa.Store); ok && st.Addr == ssa.Value(ia) {
+				els = append(els, st.Val)
+			}
+		}
+	}
+	return els, int64(len(els)) == arr.Len() && len(els) > 0
+}
+
+// ---------------------------------------------------------------------------
+// C09.MPT4 — the launch is on record before lifecycle.Reconcile reports success
+
+// c09LaunchRecorded: lifecycle.finalize decides "was an instance ever launched" from nodeClaim.Status.ProviderID of the
+// object it reads from the API server (DOM6/DOM7: no provider id ⇒ the finalizer goes without a provider Delete). The
+// provider id is written into the in-memory object by the launch sub-reconciler and reaches the API server only through
+// the status patch at the end of lifecycle.Reconcile. Decided here, for every return of Reconcile that can be reached
+// after a sub-reconciler ran and whose error may be nil:
+//
+//	(a) the NodeClaim equals the copy taken before the sub-reconcilers ran, or the status patch (relative to such a copy)
+//	    returned nil — except `return …, client.IgnoreNotFound(err)` on the edge where a patch failed (object gone);
+//	(b) that copy is taken before the sub-reconcilers run (taken after, nothing ever differs);
+//	(c) the object whose status is patched still carries what the sub-reconcilers wrote: client.Patch overwrites its
+//	    argument with the server's answer (which has the old status), so either no metadata patch / update of the
+//	    NodeClaim lies between the sub-reconcilers and the status patch, or the status patch is given a copy taken after
+//	    the sub-reconcilers and before that write.
+func c09LaunchRecorded(w *core.World, id string) []core.Result {
+	const fname = "(*life.Controller).Reconcile"
+	fn := w.Fn(fname)
+	if fn == nil {
+		return []core.Result{core.Anchor(id, "MPT", fname)}
+	}
+	construct := "MPT:" + fname + ":sub-reconcilers ran ∧ ok ⇒ unchanged ∨ status patched"
+	var out []core.Result
+	bad := func(pos, msg string, facts ...string) {
+		out = append(out, core.Bad(id, "MPT", construct, pos, msg, facts...))
+	}
+	const (
+		nc     = `<\*apis/v1\.NodeClaim>`
+		cp     = nc + `\(\*apis/v1\.NodeClaim\)\.DeepCopy\(\$2\)`
+		deepEq = `\(k8s\.io/apimachinery/third_party/forked/golang/reflect\.Equalities\)\.DeepEqual\(apim/api/equality\.Semantic\.Equalities, (` + cp + `, ` + nc + `\$2|` + nc + `\$2, ` + cp + `)\)`
+		stPat  = `iface:\(cr/client\.SubResourceWriter\)\.(Patch|Update)\(iface:\(cr/client\.StatusClient\)\.Status\(\$0\.kubeClient\), ` + nc + `(\$2|\(\*apis/v1\.NodeClaim\)\.DeepCopy\(\$2\))`
+		stOK   = stPat + `, cr/client\.MergeFrom(WithOptions)?\(` + cp + `.*\)`
+	)
+	recRe := regexp.MustCompile(`^call iface:\(cr/reconcile\.TypedReconciler\[\*apis/v1\.NodeClaim\]\)\.Reconcile\(`)
+	recs := w.SitesOr(fn, recRe, false, 1)
+	if len(recs) == 0 {
+		return []core.Result{core.Bad(id, "MPT", construct, w.Pos(fn.Pos()), "vacuous: no sub-reconciler call (TypedReconciler[*NodeClaim].Reconcile) in lifecycle.Reconcile or its private helpers (1 confirmed by hand)")}
+	}
+	// instructions of a private helper called directly from Reconcile are placed at their call site
+	frameVia := map[*ssa.Function]ssa.Instruction{}
+	top := func(in ssa.Instruction) ssa.Instruction {
+		if in != nil && in.Parent() != fn {
+			return frameVia[in.Parent()]
+		}
+		return in
+	}
+	after := func(a, b ssa.Instruction) bool {
+		if a == nil || b == nil {
+			return false
+		}
+		if a.Parent() == b.Parent() {
+			return c09After(a, b)
+		}
+		ta, tb := top(a), top(b)
+		return ta != tb && c09After(ta, tb)
+	}
+	afterRecs := func(in ssa.Instruction) bool {
+		for _, r := range recs {
+			if after(r, in) {
+				return true
+			}
+		}
+		return false
+	}
+	// (a)
+	gate := G(`+^`+deepEq+`$`, `+^`+stOK+` == nil$`)
+	gone := G(`-^.* == nil$`)
+	n := 0
+	for _, s := range w.ReturnSinks(fn, core.RetOK) {
+		if !afterRecs(s.Ret) {
+			continue
+		}
+		// `return …, client.IgnoreNotFound(err)` on an edge where an error was found non-nil: nil only when the object is gone
+		if c, ok := s.Val.(*ssa.Call); ok && w.CalleeName(c.Common()) == "cr/client.IgnoreNotFound" && w.RetGuarded(s, gone) {
+			continue
+		}
+		n++
+		if !w.RetGuarded(s, gate) {
+			bad(w.InstrPos(s.Ret), "lifecycle.Reconcile can return with a possibly nil error ("+s.Desc+") after the sub-reconcilers ran, although the NodeClaim differs from the copy taken before them and its status patch did not succeed {"+gate.Text+"}: the provider id written by launch is not on record, lifecycle.finalize of that NodeClaim sees an empty provider id and removes the finalizer without deleting the instance",
+				w.DominatingLits(s.Ret)...)
+		}
+	}
+	if n < 1 {
+		bad(w.Pos(fn.Pos()), "vacuous: no return with a possibly nil error after the sub-reconcilers (1 confirmed by hand)")
+	}
+	// (b) + (c): collected in Reconcile and in the private helpers it calls directly (the persisting tail may have been extracted)
+	strip := func(v ssa.Value) ssa.Value {
+		for {
+			switch x := v.(type) {
+			case *ssa.MakeInterface:
+				v = x.X
+			case *ssa.ChangeType:
+				v = x.X
+			case *ssa.ChangeInterface:
+				v = x.X
+			default:
+				return v
+			}
+		}
+	}
+	// resolve: a helper's parameter read as the argument Reconcile passes
+	resolve := func(v ssa.Value, f *ssa.Function) ssa.Value {
+		v = strip(v)
+		if p, ok := v.(*ssa.Parameter); ok && f != fn {
+			if ci, ok := frameVia[f].(ssa.CallInstruction); ok {
+				for i, q := range f.Params {
+					if q == p && i < len(ci.Common().Args) {
+						return strip(ci.Common().Args[i])
+					}
+				}
+			}
+		}
+		return v
+	}
+	asCopy := func(v ssa.Value) (*ssa.Call, bool) {
+		c, ok := v.(*ssa.Call)
+		return c, ok && w.CalleeName(c.Common()) == "(*apis/v1.NodeClaim).DeepCopy"
+	}
+	type cmpSite struct {
+		at     ssa.Instruction
+		copies []*ssa.Call
+	}
+	type patchSite struct {
+		at   ssa.Instruction
+		copy *ssa.Call
+		self bool
+	}
+	var metas []ssa.Instruction
+	var cmpSites []cmpSite
+	var patchSites []patchSite
+	cmpRe := regexp.MustCompile(`^call ` + deepEq + `$`)
+	metaRe := regexp.MustCompile(`^call iface:\(cr/client\.Writer\)\.(Patch|Update)\(\$0\.kubeClient, ` + nc + `\$2, `)
+	stRe := regexp.MustCompile(`^call ` + stPat + `, `)
+	w.WithHelpers(fn, func(f *ssa.Function, via ssa.Instruction) {
+		if f != fn {
+			if via == nil || via.Parent() != fn {
+				return
+			}
+			frameVia[f] = via
+		}
+		metas = append(metas, w.Sites(f, metaRe, false)...)
+		for _, s := range w.Sites(f, cmpRe, false) {
+			cs := cmpSite{at: s}
+			for _, a := range s.(ssa.CallInstruction).Common().Args {
+				if c, ok := asCopy(resolve(a, f)); ok {
+					cs.copies = append(cs.copies, c)
+				}
+			}
+			cmpSites = append(cmpSites, cs)
+		}
+		for _, s := range w.Sites(f, stRe, false) {
+			ps := patchSite{at: s}
+			for _, a := range s.(ssa.CallInstruction).Common().Args {
+				if mi, ok := a.(*ssa.MakeInterface); ok && strings.HasSuffix(mi.X.Type().String(), "v1.NodeClaim") {
+					obj := resolve(a, f)
+					if c, ok := asCopy(obj); ok {
+						ps.copy = c
+					} else if prm, ok := obj.(*ssa.Parameter); ok && prm.Parent() == fn && len(fn.Params) > 2 && prm == fn.Params[2] {
+						ps.self = true
+					}
+					break
+				}
+			}
+			patchSites = append(patchSites, ps)
+		}
+	})
+	cmps, patches := 0, 0
+	for _, cs := range cmpSites {
+		if !afterRecs(cs.at) {
+			continue
+		}
+		cmps++
+		if len(cs.copies) == 0 {
+			bad(w.InstrPos(cs.at), "the reference copy of the changed-test at the end of lifecycle.Reconcile is not a plain nodeClaim.DeepCopy() value (idiom not recognised)")
+		}
+		for _, c := range cs.copies {
+			if afterRecs(c) {
+				bad(w.InstrPos(c), "the copy the NodeClaim is compared with (and patched from) at the end of lifecycle.Reconcile is taken after a sub-reconciler ran: the NodeClaim always equals it, nothing is patched and the provider id written by launch never reaches the API server")
+			}
+		}
+	}
+	lost := "client.Patch / Update overwrites the in-memory NodeClaim with the server's answer, which does not carry the status the sub-reconcilers just wrote (provider id): the status patch that follows has nothing left to send"
+	for _, ps := range patchSites {
+		if !afterRecs(ps.at) {
+			continue
+		}
+		patches++
+		switch {
+		case ps.copy != nil:
+			if !afterRecs(ps.copy) {
+				bad(w.InstrPos(ps.copy), "the object whose status is patched at the end of lifecycle.Reconcile is a copy taken before the sub-reconcilers ran: it does not carry the provider id written by launch")
+			}
+			for _, m := range metas {
+				if afterRecs(m) && after(m, ps.copy) {
+					bad(w.InstrPos(ps.copy), "the copy whose status is patched is taken after the NodeClaim's metadata patch @"+w.InstrPos(m)+"; "+lost)
+				}
+			}
+		case ps.self:
+			for _, m := range metas {
+				if afterRecs(m) && after(m, ps.at) {
+					bad(w.InstrPos(ps.at), "the status patch is given the NodeClaim itself after its metadata patch @"+w.InstrPos(m)+"; "+lost)
+				}
+			}
+		default:
+			bad(w.InstrPos(ps.at), "the object of the status patch at the end of lifecycle.Reconcile is neither the NodeClaim nor a DeepCopy of it (idiom not recognised)")
+		}
+	}
+	if cmps < 1 || patches < 1 {
+		bad(w.Pos(fn.Pos()), fmt.Sprintf("vacuous: %d changed-test(s) against a pre-reconcile copy and %d status patch(es) found after the sub-reconcilers in lifecycle.Reconcile (1 each confirmed by hand) — persisting the sub-reconcilers' result changed shape and has to be re-confirmed", cmps, patches))
+	}
+	if len(out) == 0 {
+		out = append(out, core.OK(id, "MPT", construct, n+cmps+patches, fmt.Sprintf("%d nil-error return(s) after the sub-reconcilers guarded; copy taken before them; status patched from an object that still carries their writes", n)))
+	}
+	return out
+}
+
+// c09After: instruction b can execute after instruction a of the same function (later in a's block, or in a block
+// reachable from it).
+func c09After(a, b ssa.Instruction) bool {
+	if a == nil || b == nil || a.Parent() != b.Parent() {
+		return false
+	}
+	if a.Block() == b.Block() {
+		for _, in := range a.Block().Instrs {
+			if in == b {
+				break
+			}
+			if in == a {
+				return true
+			}
+		}
+	}
+	return core.Reach(a.Block().Succs, core.NewCut())[b.Block()]
 }
